@@ -9,6 +9,7 @@ import (
 	"os"
 	"os/exec"
 	"path/filepath"
+	"strconv"
 	"strings"
 	"sync"
 	"syscall"
@@ -150,6 +151,7 @@ func execC04(b []byte) vx.Verdict {
 	adir := filepath.Join(p.Dir, "a")
 	_ = os.MkdirAll(adir, 0o700)
 	os.Setenv("VERIF_CRASH_LOG", filepath.Join(p.Dir, "crash.log"))
+	os.Setenv("VERIF_STATUS_LOG", filepath.Join(p.Dir, "status.log")) // evidence for the judge only (what was lost / when the runner reported)
 	if p.Crash != "" && !p.Final {
 		os.Setenv("VERIF_CRASH", p.Crash)
 	} else {
@@ -360,7 +362,18 @@ func c04Judge(p C04Phase, wn *WNode, n *netceptor.Netceptor, started time.Time) 
 	if p.RunnerDelayMs > 0 {
 		slow = "slow-runner"
 	}
-	abandonedSig := "C04/launched-command-abandoned-at-restart:" + slow
+	statusRecs := c04StatusLog(p.Dir)
+	// which variant of "launched command abandoned at restart" a unit shows is decided by what was measured for that unit: the
+	// restarted daemon keeps following only if the runner reports within its first one-second look; a runner that reports later
+	// (paused by the harness, or simply slow on a busy machine) is the known finding, a runner that reported in time and is
+	// not followed is not
+	abandonedSigFor := func(id string) (string, string) {
+		late, why := c04RunnerReportedLate(statusRecs[id])
+		if slow == "slow-runner" || late {
+			return "C04/launched-command-abandoned-at-restart:slow-runner", why
+		}
+		return "C04/launched-command-abandoned-at-restart:prompt-runner", why
+	}
 	// ---- no status query blocks
 	var listed map[string]c04Status
 	var lerr error
@@ -381,7 +394,8 @@ func c04Judge(p C04Phase, wn *WNode, n *netceptor.Netceptor, started time.Time) 
 		if strings.HasPrefix(u.kind, "remote") {
 			wantType = "remote"
 		}
-		killedInRewrite := bytes.Contains(hookHits, []byte("update.after_truncate")) || bytes.Contains(hookHits, []byte("save.after_open_truncate"))
+		killedInRewrite := bytes.Contains(hookHits, []byte("update.after_truncate")) || bytes.Contains(hookHits, []byte("save.after_open_truncate")) ||
+			c04RecordLost(statusRecs[id]) // a timed kill can land between the two steps as well: then a later update found no stored record
 		if st.WorkType == "" && (strings.Contains(st.Detail, "unexpected end of JSON input") || killedInRewrite) {
 			// the status record is empty: the process was killed between truncating the record and writing it again. (If the unit's
 			// runner is still alive it then rebuilds a record from the empty one: state and size, but no work type.)
@@ -413,12 +427,13 @@ func c04Judge(p C04Phase, wn *WNode, n *netceptor.Netceptor, started time.Time) 
 		if u.finalSeen && u.finalState == workceptor.WorkStateFailed && strings.Contains(u.finalDetail, "Pending at restart") && (st.State != u.finalState || st.StdoutSize != u.finalSize) {
 			// an earlier incarnation had declared the launched command "Failed (Pending at restart)"; its runner went on and
 			// the record now says otherwise
+			abandonedSig, why := abandonedSigFor(id)
 			if vx.IsKnown("C04", abandonedSig) {
 				knownC04[abandonedSig]++
 				delete(units, id)
 				continue
 			}
-			return vx.CertainViolation("finished-stays-finished", abandonedSig, "unit %s (%s) had been reported Failed (\"Pending at restart\") by an earlier incarnation although its runner was alive; it is now reported %s with %d bytes", id, u.kind, workceptor.WorkStateToString(st.State), st.StdoutSize)
+			return vx.CertainViolation("finished-stays-finished", abandonedSig, "unit %s (%s) had been reported Failed (\"Pending at restart\") by an earlier incarnation although its runner was alive; it is now reported %s with %d bytes (%s)", id, u.kind, workceptor.WorkStateToString(st.State), st.StdoutSize, why)
 		}
 		if u.finalSeen {
 			if st.State != u.finalState || st.StdoutSize != u.finalSize {
@@ -493,12 +508,13 @@ func c04Judge(p C04Phase, wn *WNode, n *netceptor.Netceptor, started time.Time) 
 					diverged = ""
 				}
 			}
+			abandonedSig, why := abandonedSigFor(id)
 			if diverged != "" && !runnerKilledFn() && vx.IsKnown("C04", abandonedSig) {
 				knownC04[abandonedSig]++
 				continue
 			}
 			if diverged != "" && !runnerKilledFn() {
-				return vx.Violation("followed-to-completion", abandonedSig, "unit %s (%s): %s 6 s after the restart: the command had been launched and is not being followed (crash points hit: %s)", id, u.kind, diverged, strings.TrimSpace(string(hookHits)))
+				return vx.Violation("followed-to-completion", abandonedSig, "unit %s (%s): %s 6 s after the restart: the command had been launched and is not being followed (%s; crash points hit: %s)", id, u.kind, diverged, why, strings.TrimSpace(string(hookHits)))
 			}
 			labels = append(labels, "never-started-reported-failed")
 			continue
@@ -572,6 +588,69 @@ func c04Judge(p C04Phase, wn *WNode, n *netceptor.Netceptor, started time.Time) 
 	_ = crashNotes
 	_ = started
 	return v
+}
+
+// c04StatusRec is one line of the hooked status-write log (see verif_hooks.go in receptor).
+type c04StatusRec struct {
+	pid      int
+	oldState int
+	newState int
+	t        int64
+	detail   string
+}
+
+// c04StatusLog returns, per unit ID, the rewrites of its status record in the order they happened (the hook runs under the
+// status file lock). Used only to tell apart WHY a unit looks the way it does after the restart, never as an oracle of its own.
+func c04StatusLog(dir string) map[string][]c04StatusRec {
+	out := map[string][]c04StatusRec{}
+	b, err := os.ReadFile(filepath.Join(dir, "status.log"))
+	if err != nil {
+		return out
+	}
+	for _, line := range strings.Split(string(b), "\n") {
+		f := strings.SplitN(line, " ", 8)
+		if len(f) < 8 {
+			continue
+		}
+		var r c04StatusRec
+		r.pid, _ = strconv.Atoi(f[0])
+		r.oldState, _ = strconv.Atoi(f[2])
+		r.newState, _ = strconv.Atoi(f[4])
+		r.t, _ = strconv.ParseInt(f[6], 10, 64)
+		r.detail = f[7]
+		id := filepath.Base(filepath.Dir(f[1]))
+		out[id] = append(out[id], r)
+	}
+	return out
+}
+
+// recordLost: some update of this unit's record found NO stored record although one had been written before, i.e. the file had
+// been emptied by a process that died between truncating and rewriting it.
+func c04RecordLost(recs []c04StatusRec) bool {
+	for i, r := range recs {
+		if i > 0 && r.oldState == -2 {
+			return true
+		}
+	}
+	return false
+}
+
+// runnerReportedLate: the restarted daemon declared the unit "Pending at restart" and the unit's runner (another process) made
+// its next report more than 0.9 s later (or never): MonitorLocalStatus has by then taken its first one-second look and stopped.
+func c04RunnerReportedLate(recs []c04StatusRec) (bool, string) {
+	for i, r := range recs {
+		if !strings.Contains(r.detail, "Pending at restart") {
+			continue
+		}
+		for _, n := range recs[i+1:] {
+			if n.pid != r.pid {
+				d := time.Duration(n.t - r.t)
+				return d > 900*time.Millisecond, fmt.Sprintf("runner reported %v after the restarted daemon's verdict", d.Round(time.Millisecond))
+			}
+		}
+		return true, "runner did not report after the restarted daemon's verdict"
+	}
+	return false, "no 'Pending at restart' record"
 }
 
 type C04Scn struct {
